@@ -105,9 +105,16 @@ func (l *List[T]) IsSorted(lt cmp.LessThan[T]) bool {
 // slice and then using sort.Slice() from the standard library, and
 // then re-adding those elements to the list, will perform better.
 //
-// The operation will modify the input list, replacing it with an new
-// list operation.
-func (l *List[T]) SortMerge(lt cmp.LessThan[T]) { *l = *mergeSort(l, lt) }
+// The operation sorts the list in place: the elements are moved
+// through temporary lists and then back into this list, so they
+// remain members of (and owned by) the list afterwards.
+func (l *List[T]) SortMerge(lt cmp.LessThan[T]) {
+	if l.Len() < 2 {
+		return
+	}
+
+	l.Extend(mergeSort(l, lt))
+}
 
 // SortQuick sorts the list, by removing the elements, adding them
 // to a slice, and then using sort.SliceStable(). In many cases this
